@@ -1388,6 +1388,22 @@ theorem handler_token_step (single : Bool) (cap : Nat) (junk : UInt8) (app : Byt
   (crcvStepT_spec single cap junk app c (if sent then some tok else none) tok r hent htok
     (by intro st hst; split at hst <;> simp at hst; exact Or.inl hst.symm)).2.2.1
 
+/-- the hypotheses of `handler_token_step` are satisfiable on a non-trivial state: two lg_crcvs — one of the application's
+request, one built from a late message of a released transfer (base 3) — and a follow-up response of the first -/
+example :
+    let c : CliT := { crcvs := [{ appTok := [0xa1], state := stateTokenFull 7 1, retry := 4, lg := {} },
+                                { appTok := encodeVar8 (stateTokenFull 3 2), state := stateTokenFull 9 1, retry := 1, lg := {} }],
+                      txTok := 9, released := [3] }
+    (∀ e ∈ c.crcvs, AppOK [0xa1] c.released e) ∧ TokOK [0xa1] c (encodeVar8 (stateTokenFull 7 4)) := by
+  refine ⟨?_, Or.inr (Or.inl ?_)⟩
+  · intro e he
+    simp only [List.mem_cons, List.not_mem_nil, or_false] at he
+    rcases he with rfl | rfl
+    · exact Or.inl rfl
+    · exact Or.inr (by rw [base_wire 3 2 (by decide)]; decide)
+  · rw [base_wire 7 4 (by decide)]
+    decide
+
 /-- libcoap reads back from its own tokens the state token they were generated from (any retry count) -/
 theorem wire_token_roundtrip (st r : Nat) (hr : r < 65536) :
     decodeVar8 (encodeVar8 (stateTokenFull st r)) = stateTokenFull st r ∧
